@@ -34,6 +34,7 @@ type rewriter struct {
 	used      bool
 	hasOS     bool
 	fsRewrite bool
+	postcall  bool // yield after an assignment from a call that takes a context (a blocking call into code that is not instrumented has just returned)
 }
 
 var osFuncs = map[string]bool{"OpenFile": true, "Open": true, "Create": true, "WriteFile": true, "ReadFile": true,
@@ -355,6 +356,13 @@ func (r *rewriter) stmt(s ast.Stmt) []ast.Stmt {
 		if rc {
 			return []ast.Stmt{r.yield("recv"), st, r.yield("post")}
 		}
+		if r.postcall && len(st.Rhs) == 1 {
+			if ce, ok := st.Rhs[0].(*ast.CallExpr); ok && len(ce.Args) > 0 {
+				if id, ok := ce.Args[0].(*ast.Ident); ok && strings.Contains(strings.ToLower(id.Name), "ctx") {
+					return []ast.Stmt{st, r.yield("postcall")}
+				}
+			}
+		}
 		return []ast.Stmt{st}
 	case *ast.DeclStmt:
 		rc := hasRecv(st)
@@ -393,13 +401,13 @@ func funcName(fd *ast.FuncDecl) string {
 	return fd.Name.Name
 }
 
-func instrumentFile(in, out string, fsRewrite bool) (sites []string, changed bool, err error) {
+func instrumentFile(in, out string, fsRewrite, postcall bool) (sites []string, changed bool, err error) {
 	fset := token.NewFileSet()
 	f, err := parser.ParseFile(fset, in, nil, parser.ParseComments)
 	if err != nil {
 		return nil, false, err
 	}
-	r := &rewriter{fset: fset, file: filepath.Base(in), ord: map[string]int{}, fsRewrite: fsRewrite}
+	r := &rewriter{fset: fset, file: filepath.Base(in), ord: map[string]int{}, fsRewrite: fsRewrite, postcall: postcall}
 	for _, imp := range f.Imports {
 		if imp.Path.Value == `"os"` && imp.Name == nil {
 			r.hasOS = true
@@ -447,11 +455,15 @@ func main() {
 	replace := map[string]string{}
 	var allSites []string
 	for _, spec := range os.Args[3:] {
-		fsRewrite := false
+		fsRewrite, postcall := false, false
 		pkg := spec
 		if strings.HasSuffix(spec, ":fs") {
 			fsRewrite = true
 			pkg = strings.TrimSuffix(spec, ":fs")
+		}
+		if strings.HasSuffix(spec, ":postcall") {
+			postcall = true
+			pkg = strings.TrimSuffix(spec, ":postcall")
 		}
 		ents, err := os.ReadDir(filepath.Join(repo, pkg))
 		if err != nil {
@@ -465,7 +477,7 @@ func main() {
 			}
 			in := filepath.Join(repo, pkg, n)
 			out := filepath.Join(outdir, pkg, n)
-			sites, changed, err := instrumentFile(in, out, fsRewrite)
+			sites, changed, err := instrumentFile(in, out, fsRewrite, postcall)
 			if err != nil {
 				fmt.Fprintf(os.Stderr, "instrument: %s: %v\n", in, err)
 				os.Exit(2)
